@@ -100,6 +100,34 @@ func newEngine(repo string, pkgPaths []string) (*Engine, error) {
 	for fn := range ssautil.AllFunctions(prog) {
 		e.funcs[fn.String()] = fn
 	}
+	// AllFunctions omits methods whose method sets were never needed: add every declared function and method
+	var addFn func(fn *ssa.Function)
+	addFn = func(fn *ssa.Function) {
+		if fn == nil {
+			return
+		}
+		if _, ok := e.funcs[fn.String()]; !ok {
+			e.funcs[fn.String()] = fn
+		}
+		for _, a := range fn.AnonFuncs {
+			addFn(a)
+		}
+	}
+	for _, sp := range e.spkgs {
+		for _, m := range sp.Members {
+			switch x := m.(type) {
+			case *ssa.Function:
+				addFn(x)
+			case *ssa.Type:
+				for _, T := range []types.Type{x.Type(), types.NewPointer(x.Type())} {
+					ms := prog.MethodSets.MethodSet(T)
+					for i := 0; i < ms.Len(); i++ {
+						addFn(prog.MethodValue(ms.At(i)))
+					}
+				}
+			}
+		}
+	}
 	cs, err := loadContracts(dirs)
 	if err != nil {
 		return nil, err
@@ -309,6 +337,9 @@ var axGroups = []axGroup{
 (assert (forall ((n Int) (m Int)) (! (=> (and (pow2 (+ m 1)) (= n (+ m 1))) (= (band64 n m) 0)) :pattern ((band64 n m)))))
 (assert (forall ((n Int) (m Int)) (! (=> (and (pow2 (+ m 1)) (<= 0 n)) (and (<= 0 (band64 n m)) (<= (band64 n m) m))) :pattern ((band64 n m)))))
 (assert (forall ((n Int)) (! (=> (>= n 1) (= (= (band64 n (- n 1)) 0) (pow2 n))) :pattern ((band64 n (- n 1))))))
+(assert (forall ((a Int) (b Int) (m Int)) (! (=> (and (pow2 (+ m 1)) (<= 0 a) (< a b) (< b (+ a m 1)) (<= b 4611686018427387903)) (not (= (band64 a m) (band64 b m)))) :pattern ((band64 a m) (band64 b m)))))
+(assert (forall ((a Int) (b Int) (m Int)) (! (=> (and (pow2 (+ m 1)) (<= 0 a) (<= a b) (<= b 4611686018427387903) (<= (+ (band64 a m) (- b a)) m)) (= (band64 b m) (+ (band64 a m) (- b a)))) :pattern ((band64 a m) (band64 b m)))))
+(assert (forall ((a Int) (b Int) (m Int)) (! (=> (and (pow2 (+ m 1)) (<= 0 a) (<= a b) (<= b 4611686018427387903) (> (+ (band64 a m) (- b a)) m) (<= (- b a) m)) (= (band64 b m) (- (+ (band64 a m) (- b a)) (+ m 1)))) :pattern ((band64 a m) (band64 b m)))))
 `},
 }
 
